@@ -3,19 +3,42 @@ import os
 import vlib
 
 IMPORTS = "From Ergo Require Import Common.Base Sched.Model Sched.Cases."
+M_IMPORTS = "From Ergo Require Import Common.Base Sched.MetaModel Sched.MetaCases."
 
 
-def run(c, props, spec):
+def run_meta(c, spec):
+    """controlled-schedule runs of a real meta-process (node/meta.go)"""
+    quick = c.tier == "quick"
+    if c.replay:
+        args = ["meta", "-replay", c.replay]
+    else:
+        args = ["meta", "-n", "300" if quick else "8000"]
+    out = c.harness("sched", args, timeout=900 if quick else 3000)
+    if out:
+        for n in out.get("notes") or []:
+            c.broken.append({"kind": "scheduler-stall", "what": n})
+        c.cases("meta", out, M_IMPORTS, "mcase", corr=["corr_meta"], spec=spec, premise=["premise_meta"])
+
+
+def run(c, props, spec, meta_spec=None):
     c.proofs(props, clean=(c.tier == "thorough"))
     quick = c.tier == "quick"
     corpus = os.path.join(vlib.VERIF, "corpus", "sched")
     runs = []
+    is_meta_replay = False
+    if c.replay:
+        import json
+        is_meta_replay = json.load(open(c.replay)).get("engine", "").startswith("meta")
+    if meta_spec and (not c.replay or is_meta_replay):
+        run_meta(c, meta_spec)
+    if is_meta_replay:
+        return
     if c.replay:
         runs.append(("replay", ["run", "-replay", c.replay]))
     else:
         runs.append(("corpus", ["corpus", "-corpus", corpus]))
-        runs.append(("dfs", ["dfs", "-n", "4200" if quick else "40000", "-preempt", "1" if quick else "2"]))
-        runs.append(("random", ["run", "-n", "600" if quick else "8000"]))
+        runs.append(("dfs", ["dfs", "-n", "2100" if quick else "40000", "-preempt", "1" if quick else "2"]))
+        runs.append(("random", ["run", "-n", "400" if quick else "8000"]))
     for name, args in runs:
         out = c.harness("sched", args, timeout=900 if quick else 3000)
         if not out:
@@ -28,7 +51,11 @@ def run(c, props, spec):
         if out:
             keep = list(c.broken)
             c.cases("random-search", out, IMPORTS, "scase", corr=[], spec=spec, premise=["premise_ok"])
-            c.broken = keep + [b for b in c.broken if b not in keep]
+        if meta_spec:
+            out = c.harness("sched", ["meta", "-n", "4000"], timeout=1800, env={"VERIF_SEED": str(c.seed + 7919)})
+            if out:
+                c.cases("meta-search", out, M_IMPORTS, "mcase", corr=[], spec=meta_spec, premise=["premise_meta"])
+        c.broken = keep + [b for b in c.broken if b not in keep]
     c.assumptions += [
         "Go sync/atomic operations are sequentially consistent; between two lib.VerifPoint hooks a goroutine performs at most one access to the state word / process table / mailbox links (the hook sits immediately before each)",
         "goroutine scheduling is abstracted to interleavings of the hooked accesses (real parallelism between two hooks is not explored)",
